@@ -200,6 +200,23 @@ theorem url_href_is_standard_partial (idna : Idna) (input : Bytes) (hid : ∀ d,
     rw [C04.fast_eq_general _ hf, hgen]
   · exact hgen
 
+/-- … and `get_origin()`: for a special scheme the tuple origin, "null" for `file` and for schemes that are not special, and
+    for `blob:` the origin of the URL in the path - a parse without a base, to which the parser theorem applies (its side
+    condition is asked of the path text).  `ada::url`, `Model/ParseSpecial.getOriginR`; run against the real getter on
+    every state of C04's histories. -/
+theorem url_origin_is_standard_partial (idna : Idna) (u : Url) (hinv : RecInv u = true) (hid : ∀ d, HP.IdnaAt idna d)
+    (hclean : u.scheme = bBlob →
+      HS.bracketClean (ParseSpecial.schemeSpecial u.pathSerialized) false (ParseSpecial.hostStart u.pathSerialized) = true) :
+    ParseSpecial.getOriginR idna (UR.recOf u) = u.origin idna := by
+  apply PB.getOriginR_eq idna u _ hid hclean
+  intro p hpp
+  have h := hinv
+  simp only [RecInv, Bool.and_eq_true] at h
+  have := h.1.2
+  rw [hpp] at this
+  simp only [portOkB, Bool.and_eq_true, decide_eq_true_eq] at this
+  omega
+
 theorem bracket_condition_plain_base (b : UrlRec.Rec) (input : Bytes) (h : (0x5B : UInt8) ∉ input) :
     HS.bracketClean (ParseSpecial.hostStartB b input).1 false (ParseSpecial.hostStartB b input).2 = true :=
   PB.clean_of_no_bracket_base b input h
